@@ -145,9 +145,10 @@ Definition pOpcodeTableIndex (opcode : N) (allowInternalOp : bool) : outcome N :
 Definition blank_object (index : N) : Obj :=
   mkObject 0 0 0 name_zero index 0 0 0 0 0 0 0 None.
 
-(** the field initialisation at the end of newObject (name, index, amlOffset, pkgEnd stay) *)
+(** the field initialisation at the end of newObject (index, amlOffset, pkgEnd stay; the name is
+    cleared - /repo d18acb2: a reused slot must not answer to the name of the freed object) *)
 Definition init_object (opcode info tableHandle : N) (o : Obj) : Obj :=
-  mkObject opcode info tableHandle (o_name o) (o_index o)
+  mkObject opcode info tableHandle name_zero (o_index o)
            InvalidIndex InvalidIndex InvalidIndex InvalidIndex InvalidIndex
            (o_amlOffset o) (o_pkgEnd o) None.
 
